@@ -2,3 +2,48 @@
 // `to_vec` clones element-wise; for the Copy types it is used on here (Target, u8, u64) a clone is the value itself.
 pub assume_specification<T: Clone> [<[T]>::to_vec] (s: &[T]) -> (r: Vec<T>)
     ensures r@ == s@;
+
+// `usize::leading_zeros` (core docs): number of leading zero bits
+pub uninterp spec fn spec_lz(x: usize) -> u32;
+#[verifier::external_body]
+pub broadcast proof fn axiom_spec_lz(x: usize)
+    ensures (#[trigger] spec_lz(x)) <= 64, x == 0 ==> spec_lz(x) == 64,
+            x > 0 ==> pow2i((63 - spec_lz(x)) as nat) <= x as int && (x as int) < pow2i((64 - spec_lz(x)) as nat),
+{ }
+pub assume_specification [usize::leading_zeros] (x: usize) -> (r: u32)
+    ensures r == spec_lz(x);
+
+/// N19: `.try_into()` is type-directed; each impl below states the std behaviour of one conversion (TB-6)
+pub struct VConvError { }
+impl core::fmt::Debug for VConvError { #[verifier::external_body] fn fmt(&self, f: &mut core::fmt::Formatter<'_>) -> core::fmt::Result { unimplemented!() } }
+pub trait VTryInto<T>: Sized {
+    spec fn conv(self) -> Option<T>;
+    fn vtry_into(self) -> (r: Result<T, VConvError>)
+        ensures r.is_ok() == self.conv().is_some(), r.is_ok() ==> r->Ok_0 == self.conv().unwrap();
+}
+// Vec<T> -> [T; N]: Ok iff len == N, same elements (alloc::vec TryFrom<Vec<T>> for [T; N])
+impl<T: Copy, const N: usize> VTryInto<[T; N]> for Vec<T> {
+    open spec fn conv(self) -> Option<[T; N]> {
+        if self@.len() == N { Some(choose|a: [T; N]| a@ == self@) } else { None }
+    }
+    #[verifier::external_body]
+    fn vtry_into(self) -> (r: Result<[T; N], VConvError>) { unimplemented!() }
+}
+// u64 -> u32: Ok iff value <= u32::MAX
+impl VTryInto<u32> for u64 {
+    open spec fn conv(self) -> Option<u32> { if self <= 0xFFFF_FFFF { Some(self as u32) } else { None } }
+    #[verifier::external_body]
+    fn vtry_into(self) -> (r: Result<u32, VConvError>) { unimplemented!() }
+}
+// usize -> u32
+impl VTryInto<u32> for usize {
+    open spec fn conv(self) -> Option<u32> { if self <= 0xFFFF_FFFF { Some(self as u32) } else { None } }
+    #[verifier::external_body]
+    fn vtry_into(self) -> (r: Result<u32, VConvError>) { unimplemented!() }
+}
+/// an array with a given view exists (arrays of length N are in bijection with sequences of length N)
+#[verifier::external_body]
+pub proof fn axiom_array_of_seq<T, const N: usize>(s: Seq<T>)
+    requires s.len() == N,
+    ensures exists|a: [T; N]| a@ == s,
+{ }
